@@ -85,6 +85,7 @@ func refID(s uint16) uint16 {
 func counterState(s uint16) (fails []explore.ClauseFail) {
 	defer func() {
 		if r := recover(); r != nil {
+			explore.EngineFault(r)
 			fails = append(fails, explore.ClauseFail{Clause: "no-panic", Sig: fmt.Sprintf("panic:counter-state:%d", s), Msg: fmt.Sprintf("counter starting at %d panicked: %v", s, r)})
 		}
 	}()
@@ -350,6 +351,7 @@ func storeClosure() *explore.Closure {
 func constructedStore(list []string) (fails []explore.ClauseFail) {
 	defer func() {
 		if r := recover(); r != nil {
+			explore.EngineFault(r)
 			fails = append(fails, explore.ClauseFail{Clause: "no-panic", Sig: "constructed-store-panic", Msg: fmt.Sprintf("store built from %v: panic: %v", list, r)})
 		}
 	}()
